@@ -48,6 +48,23 @@ def setAll (env : Env) : List Var → List Obj → Env
   | x :: xs, o :: os => setAll (env.set x o) xs os
   | _, _ => env
 
+/-- How a block ends. -/
+inductive Outcome where
+  | normal (env : Env)
+  | returned (o : Obj)
+  | raised
+  deriving Repr, Inhabited
+
+/-- `for x in os: run` — `run` executes the body in a given environment -/
+def forLoop (run : Env → Outcome × RLog) (x : Var) : Env → List Obj → Outcome × RLog
+  | env, [] => (.normal env, [])
+  | env, o :: os =>
+    match run (env.set x o) with
+    | (.normal env1, lg) =>
+      let (out, lg2) := forLoop run x env1 os
+      (out, lg ++ lg2)
+    | (out, lg) => (out, lg)
+
 section
 variable (impl : Impl)
 
@@ -114,13 +131,6 @@ def evalList (env : Env) (p : Path) (k : Nat) : List Expr → Option (List Obj) 
     | (none, lg) => (none, lg)
 end
 
-/-- How a block ends. -/
-inductive Outcome where
-  | normal (env : Env)
-  | returned (o : Obj)
-  | raised
-  deriving Repr, Inhabited
-
 mutual
 def execStmt (env : Env) (p : Path) : Stmt → Outcome × RLog
   | .assign x e =>
@@ -136,6 +146,15 @@ def execStmt (env : Env) (p : Path) : Stmt → Outcome × RLog
     | (some o, lg) =>
       (match iterObj o with
        | some os => if os.length == xs.length then (.normal (setAll env xs os), lg) else (.raised, lg)
+       | none => (.raised, lg))
+    | (none, lg) => (.raised, lg)
+  | .forS x e body =>
+    match evalExpr impl env (0 :: p) e with
+    | (some o, lg) =>
+      (match iterObj o with
+       | some os =>
+         let (out, lg2) := forLoop (fun env' => execBlock env' (1 :: p) 0 body) x env os
+         (out, lg ++ lg2)
        | none => (.raised, lg))
     | (none, lg) => (.raised, lg)
   | .ifs t body els =>
